@@ -9,5 +9,7 @@ if os.path.isdir(os.path.join(root, "h/cmd", p.lower())):
     print(p.lower())
 elif p in V:
     print(V[p])
+elif p == "C02":
+    print("free red")  # the first is executed, the others are built alongside (sub-harnesses)
 else:
     print("free")
